@@ -23,6 +23,14 @@ PROPS = {
                 quick=dict(runs=1200, budget_s=90, min_runs=100),
                 thorough=dict(runs=15000, budget_s=900, min_runs=1000),
                 watchdog_s=120, spot=4),
+    'C04': dict(engine='al_sim',
+                quick=dict(runs=640, budget_s=100, min_runs=60),
+                thorough=dict(runs=12000, budget_s=900, min_runs=600),
+                watchdog_s=180, spot=3),
+    'C05': dict(engine='spg_sim',
+                quick=dict(runs=480, budget_s=100, min_runs=60),
+                thorough=dict(runs=8000, budget_s=900, min_runs=600),
+                watchdog_s=240, spot=3),
 }
 
 
